@@ -40,10 +40,13 @@ def gen_window_cmds(rng, sessions, sel, sizes, next_id):
             if r < 0.9:
                 return [[1, STAR]]
             return [[rng.randint(1, top), rng.randint(1, top)], [STAR, STAR]]
-        k = rng.choices(["Store", "Fetch", "Expunge", "Copy", "Move", "Append", "Noop", "Search"],
-                        [30, 18, 12, 14, 10, 8, 6, 9])[0]
+        k = rng.choices(["Store", "Fetch", "Expunge", "Copy", "Move", "Append", "Noop", "Search", "Select"],
+                        [30, 18, 12, 14, 10, 8, 6, 9, 5])[0]
         c = {"sess": s, "act": k, "uid": uid, "set": [], "mode": "", "flags": [], "silent": False,
-             "mbox": "", "msgid": 0, "peek": True, "key": ""}
+             "mbox": "", "msgid": 0, "peek": True, "key": "", "exists": 0}
+        if k == "Select":
+            # mostly a re-SELECT of the mailbox the session has selected already, while others change it
+            c.update(uid=False, mbox=m if rng.random() < 0.7 else other)
         if k == "Search":
             c.update(key=rng.choice(["DELETED", "UNSEEN", "SEEN", "FLAGGED", "ANSWERED", "ALL", "NOT DELETED", "KEYWORD k1"]))
         if k == "Store":
@@ -74,7 +77,7 @@ def gen_conflict_window(rng, sessions, sel, sizes, next_id):
     COPY / MOVE between the two mailboxes."""
     def base(s, act, **kw):
         c = {"sess": s, "act": act, "uid": False, "set": [[1, STAR]], "mode": "", "flags": [], "silent": False,
-             "mbox": "", "msgid": 0, "peek": True, "key": ""}
+             "mbox": "", "msgid": 0, "peek": True, "key": "", "exists": 0}
         c.update(kw)
         return c
     by_mb = {}
@@ -190,6 +193,8 @@ def render(c):
         return f"{u}SEARCH {c['key']}"
     if k == "PopQuit":
         return "POP3 QUIT"
+    if k == "Select":
+        return f"SELECT {c['mbox']}"
     return "NOOP"
 
 
@@ -335,6 +340,13 @@ async def run_windows(d: MailDriver, rng, sessions, nwin, stats, pop3=False):
                 if it["kind"] == "SEARCH":
                     found = list(it["nums"])
             c2.update(found=found)
+            c2.setdefault("exists", 0)
+            if c["act"] == "Select":
+                ex = [it["n"] for it in r.items if it["kind"] == "EXISTS"]
+                # the count the SELECT itself announced: the last EXISTS before its tagged line
+                c2["exists"] = ex[-1] if ex else -1
+                if r.status == "OK":
+                    sel[c["sess"]] = c["mbox"]
             c2.update(status=r.status if r.status in ("OK", "NO", "BAD") else "NONE", fetched=fetched,
                       code=code, vt=int(math.ceil(max(r.vt, 0))), text=(r.tagged or {}).get("text", "")[:70])
             rec[f"c{i + 1}"] = c2
